@@ -202,7 +202,87 @@ Qed.
 Lemma eff_sdbegin s th s' : step_core s th EShutdownBegin = Some s' ->
   reg_lock s = None /\ reg_lock s' = Some th /\ running s' = running s /\ stage s' = stage s /\ thinst s' = thinst s.
 Proof. intros H. unfold step_core in H. kind_cases H. unfold lock_free in *. destruct (reg_lock s) eqn:El; [discriminate|]. repeat split; auto. Qed.
-(*STOP*)
+
+Lemma step_core_unl s th e s' : step_core s th e = Some s' ->
+  forall th', pend (get_thread s' th') = Some RUnlock -> pend (get_thread s th') = Some RUnlock \/ (th' = th /\ e = EShutdownEnd).
+Proof.
+  intros H th'. unfold step_core in H. destruct e; kind_cases H.
+  all: try match goal with |- context[match dpc ?t with _ => _ end] => destruct (dpc t) as [| | |? [|? ?]| |] end.
+  all: unfold set_pc, end_finish; autorewrite with sup;
+       repeat match goal with |- context[if ?b then _ else _] => is_var b; destruct b end; autorewrite with sup; auto.
+  all: try (destruct (N.eqb_spec th th'); [subst th'|]; cbn; auto; try (intros; discriminate); fail).
+  all: destruct (i =? i2)%N; autorewrite with sup; (destruct (N.eqb_spec th th'); [subst th'|]); cbn; auto.
+Qed.
+
+(* ---- "active => registered => in the snapshot" ----------------------------------------------------------------------- *)
+Definition staged2 (s : sys) (i : iid) : bool := match get i (stage s) with Some (_, k) => Nat.leb 2 k | None => false end.
+Definition act (s : sys) (i : iid) : Prop := staged2 s i = true \/ exists t, get t (thinst s) = Some i.
+Definition lockpc (d : sdpc) : bool := match d with DBegun | DLoop _ _ | DWaitAll _ => true | _ => false end.
+Definition snappc (d : sdpc) (order : list iid) : Prop := (exists r, d = DLoop order r) \/ d = DWaitAll order.
+
+Record Inv3 (s : sys) : Prop := mkInv3 {
+  iv_thi : forall t i, get t (thinst s) = Some i -> exists x, get i (insts s) = Some x;
+  iv_reg : forall i x, get i (insts s) = Some x -> act s i -> gonepc (pc x) = false -> get (nm x) (running s) = Some i;
+  iv_lock : forall th, lockpc (dpc (get_thread s th)) = true -> reg_lock s = Some th;
+  iv_unl : forall th, pend (get_thread s th) = Some RUnlock -> dpc (get_thread s th) = DEnded /\ reg_lock s = Some th;
+  iv_snap : forall th order, snappc (dpc (get_thread s th)) order ->
+            forall i x, get i (insts s) = Some x -> act s i -> gonepc (pc x) = false -> memN i order = true }.
+
+Definition ibwd (s s' : sys) : Prop :=
+  forall j x', get j (insts s') = Some x' -> exists x, get j (insts s) = Some x /\ nm x' = nm x /\ (gonepc (pc x) = true -> gonepc (pc x') = true).
+Definition ifwd (s s' : sys) : Prop := forall j x, get j (insts s) = Some x -> exists x', get j (insts s') = Some x'.
+
+Lemma Inv3_same s s' : running s' = running s -> stage s' = stage s -> thinst s' = thinst s -> reg_lock s' = reg_lock s ->
+  ibwd s s' -> ifwd s s' ->
+  (forall th, lockpc (dpc (get_thread s' th)) = true -> lockpc (dpc (get_thread s th)) = true) ->
+  (forall th, pend (get_thread s' th) = Some RUnlock -> pend (get_thread s th) = Some RUnlock /\ dpc (get_thread s' th) = dpc (get_thread s th)) ->
+  (forall th order, snappc (dpc (get_thread s' th)) order -> snappc (dpc (get_thread s th)) order) ->
+  Inv3 s -> Inv3 s'.
+Proof.
+  intros Er Es Et El Hb Hf Hl Hu Hs [A B C D E].
+  assert (Hact : forall i, act s' i -> act s i) by (intros i; unfold act, staged2; rewrite Es, Et; auto).
+  assert (Hng : forall x x', (gonepc (pc x) = true -> gonepc (pc x') = true) -> gonepc (pc x') = false -> gonepc (pc x) = false).
+  { intros x x' Hg Hx'. destruct (gonepc (pc x)); [rewrite Hg in Hx' by reflexivity; discriminate|reflexivity]. }
+  constructor.
+  - intros t i Ht. rewrite Et in Ht. destruct (A t i Ht) as (x & Hx). eauto.
+  - intros i x' Hx' Ha Hg. destruct (Hb i x' Hx') as (x & Hx & En & Hgg). rewrite Er, En. eauto.
+  - intros th Hp. rewrite El. auto.
+  - intros th Hp. destruct (Hu th Hp) as [Hp0 Ed]. rewrite Ed, El. auto.
+  - intros th order Hsn i x' Hx' Ha Hg. destruct (Hb i x' Hx') as (x & Hx & En & Hgg). eapply E; eauto.
+Qed.
+
+Lemma Inv3_init cs ord : Inv3 (init cs ord).
+Proof.
+  constructor; cbn; try discriminate; try (intros th order [[r H]|H]; discriminate).
+Qed.
+
+Lemma Inv3_flush th s : Inv3 s -> Inv3 (flush th s).
+Proof.
+  intros [A B C D E].
+  assert (Hb : ibwd s (flush th s)).
+  { intros j x' Hx'. destruct (flush_bwd _ _ _ _ Hx') as (x & Hx & (En & Ep & _)). exists x. rewrite Ep. auto. }
+  assert (Hact : forall i, act (flush th s) i -> act s i) by (intros i; unfold act, staged2; rewrite flush_stage, flush_thinst; auto).
+  assert (Hth : forall th', dpc (get_thread (flush th s) th') = dpc (get_thread s th') /\
+                            (pend (get_thread (flush th s) th') = Some RUnlock -> th' <> th /\ pend (get_thread s th') = Some RUnlock)).
+  { intros th'. destruct (flush_thread th s th') as (_ & _ & Ed & Ep). split; [exact Ed|]. rewrite Ep.
+    destruct (N.eqb_spec th th'); [discriminate|]. intros Hp. split; [congruence|exact Hp]. }
+  assert (Hlk : forall th', reg_lock s = Some th' -> th' <> th \/ pend (get_thread s th) <> Some RUnlock -> reg_lock (flush th s) = Some th').
+  { intros th' Hl Hc. rewrite flush_reg_lock. destruct (pend (get_thread s th)) as [[]|] eqn:Ep; auto.
+    destruct (D th Ep) as [_ Hl2]. destruct Hc as [Hc|Hc]; congruence. }
+  constructor.
+  - intros t i Ht. rewrite flush_thinst in Ht. destruct (A t i Ht) as (x & Hx). destruct (flush_fwd th _ _ _ Hx) as (x' & Hx' & _). eauto.
+  - intros i x' Hx' Ha Hg. destruct (Hb i x' Hx') as (x & Hx & En & Hgg). rewrite flush_running, En. apply B; auto.
+    destruct (gonepc (pc x)); [rewrite Hgg in Hg by reflexivity; discriminate|reflexivity].
+  - intros th' Hp. destruct (Hth th') as [Ed _]. rewrite Ed in Hp. apply Hlk; [auto|].
+    destruct (N.eq_dec th' th) as [->|Hne]; [|auto]. right. intros Hpe. destruct (D th Hpe) as [Hd _]. rewrite Hd in Hp. discriminate.
+  - intros th' Hp. destruct (Hth th') as [Ed Hp2]. destruct (Hp2 Hp) as [Hne Hp0]. destruct (D th' Hp0) as [Hd Hl].
+    rewrite Ed. split; [exact Hd|]. apply Hlk; auto.
+  - intros th' order Hsn i x' Hx' Ha Hg. destruct (Hth th') as [Ed _]. rewrite Ed in Hsn.
+    destruct (Hb i x' Hx') as (x & Hx & En & Hgg). eapply E; eauto.
+    destruct (gonepc (pc x)); [rewrite Hgg in Hg by reflexivity; discriminate|reflexivity].
+Qed.
+
+
 
 (* ---- observer: o_byapi, o_insnap, o_stopreq ---------------------------------------------------------------------- *)
 Definition oai_le (x x' : oinst) : Prop :=
